@@ -182,7 +182,7 @@ def _peval(e, case, env):
     return ev(e)
 
 
-def candidate_cases(ctx, f, stop_stmt, L):
+def candidate_cases(ctx, f, stop_stmt, L, only_paths=None):
     """{case: (root, frozenset of normalised filters, sort keys)} for the list expression L evaluated just before stop_stmt,
     under batch_plate_ids None / empty / non-empty"""
     N = Norm(strict=False)
@@ -198,6 +198,8 @@ def candidate_cases(ctx, f, stop_stmt, L):
     for case in ("none", "empty", "nonempty"):
         results = set()
         for conds, ret, env, checks in ps:
+            if only_paths is not None and not only_paths(conds):
+                continue
             feasible = True
             # conditions are evaluated with the environment *before* any re-binding of the batch list on that path
             for t, pol in conds:
@@ -393,18 +395,30 @@ def r4(ctx):
     if not ok:
         return
     # eligible: policy result or the candidate list
-    defs = [n for n in walk_own(f.node) if isinstance(n, ast.Assign) and U(n.targets[0]) == elig]
-    cand = None
-    for d in defs:
-        if isinstance(d.value, ast.Name):
-            cand = d.value.id
-    ctx.need(cand is not None, f"select_next_plate: `{elig}` is never the unfiltered candidate list")
-    dstmt = [d for d in defs if isinstance(d.value, ast.Name)][0]
+    # the eligible list on the path where no policy is given is the unfiltered candidate list; evaluated just before the
+    # minimum lookup's statement (whatever builds it: a separate candidate variable, or the list itself narrowed by the policy)
     par0 = enclosing_map(f.node)
-    top_stmt = dstmt
+    top_stmt = mc[0]
     while par0.get(top_stmt) is not None and par0.get(top_stmt) is not f.node:
         top_stmt = par0[top_stmt]
-    cases = candidate_cases(ctx, f, top_stmt, ast.Name(id=cand, ctx=ast.Load()))
+    # stop at the first top-level statement after the policy call that reads the eligible list (the emptiness guard)
+    for st_ in f.node.body:
+        if st_ is top_stmt:
+            break
+        if isinstance(st_, ast.If) and any(isinstance(x, ast.Return) for x in ast.walk(st_)) and elig in names_in(st_.test):
+            top_stmt = st_
+            break
+    Nn = Norm(strict=False)
+
+    def no_policy(conds):
+        for t, pol in conds:
+            b_ = Nn.b(t)
+            if b_ == Nn.b(parse_expr("policy is None")):
+                return pol
+            if b_ == Nn.b(parse_expr("policy is not None")):
+                return not pol
+        return False
+    cases = candidate_cases(ctx, f, top_stmt, ast.Name(id=elig, ctx=ast.Load()), only_paths=no_policy)
     check_candidates(ctx, "R4", f, cases, "eligible-from-both-filters")
     # None only when empty
     g = CFG(f.node)
